@@ -91,6 +91,22 @@ impl BuildRecord {
             });
         }
 
+        // These strings are written verbatim into BPSV cells
+        self.validate_bpsv_cell("product", &self.product)?;
+        if self.product.starts_with('#') {
+            // The product is the first cell of a v1/summary row; BPSV readers
+            // treat a row starting with '#' as a comment
+            return Err(DatabaseError::InvalidField {
+                field: "product".to_string(),
+                build_id: self.id,
+                reason: "product name cannot start with '#' (BPSV comment marker)".to_string(),
+            });
+        }
+        self.validate_bpsv_cell("version", &self.version)?;
+        if let Some(ref path) = self.cdn_path {
+            self.validate_bpsv_cell("cdn_path", path)?;
+        }
+
         // Validate MD5 hashes (32 hex characters)
         self.validate_hash("build_config", &self.build_config)?;
         self.validate_hash("cdn_config", &self.cdn_config)?;
@@ -113,6 +129,31 @@ impl BuildRecord {
                     "invalid ISO 8601 format: '{}' (expected format: '2019-11-21T18:33:35+00:00')",
                     self.build_time
                 ),
+            });
+        }
+
+        Ok(())
+    }
+
+    /// Validate that a string can be carried by one BPSV cell.
+    ///
+    /// BPSV has no escaping: `|` separates cells, CR/LF separate rows, and
+    /// readers trim rows, so a value with any of those cannot be read back.
+    fn validate_bpsv_cell(&self, field: &str, value: &str) -> Result<(), DatabaseError> {
+        if value.contains(['|', '\r', '\n']) {
+            return Err(DatabaseError::InvalidField {
+                field: field.to_string(),
+                build_id: self.id,
+                reason: "contains '|', CR or LF, which BPSV cannot represent inside a cell"
+                    .to_string(),
+            });
+        }
+
+        if value.trim() != value {
+            return Err(DatabaseError::InvalidField {
+                field: field.to_string(),
+                build_id: self.id,
+                reason: "has leading or trailing whitespace, which BPSV readers strip".to_string(),
             });
         }
 
